@@ -5,8 +5,8 @@ use educe::Educe;
 use core::cmp::Ordering;
 #[derive(Educe)]
 #[educe(Hash)]
-pub struct T;
-pub fn values() -> Vec<T> { vec![T] }
-pub fn show(x: &T) -> String { #[allow(unused_variables)] match x { T => format!("T()") } }
-pub fn o_hash(x: &T) -> Vec<String> { let mut e = Rec::default(); match x { T => {  } } e.0 }
+pub enum T { Zed, Unit { r#type: A<0> } }
+pub fn values() -> Vec<T> { vec![T::Zed, T::Unit { r#type: A(0) }, T::Unit { r#type: A(1) }, T::Unit { r#type: A(7) }] }
+pub fn show(x: &T) -> String { #[allow(unused_variables)] match x { T::Zed => format!("Zed()"), T::Unit { r#type: p0 } => format!("Unit({})", sv(p0)) } }
+pub fn o_hash(x: &T) -> Vec<String> { let mut e = Rec::default(); match x { T::Zed => { ::core::hash::Hash::hash(&0usize, &mut e); }, T::Unit { r#type: p0 } => { ::core::hash::Hash::hash(&1usize, &mut e); ::core::hash::Hash::hash(p0, &mut e); } } e.0 }
 pub fn run(out: &mut Out) { let vs = values(); for a in &vs { let mut g = Rec::default(); ::core::hash::Hash::hash(a, &mut g); let e = o_hash(a); out.check(g.0 == e, "hash_24", "hash", || format!("hash({}) fed {:?} expected {:?}", show(a), g.0, e)); } }
